@@ -193,5 +193,65 @@ def PySeq.view (s : PySeq) (align : Nat) : View2 := stripedView s.cols s.shapeRo
 def PySeq.viewCell (s : PySeq) (align i j : Nat) : Cell :=
   cellAt s.dataRows s.cols 1 (Dense.rowBytes s.cols 1 align) ((s.view align).offset i j)
 
+/-! ### views exported BEFORE the object is reused (the dangling-view finding)
+
+  `__getbuffer__` hands out the address of the row storage at the time of the call; the cached
+  `shape/strides` live in the Python object, the bytes in the `Vec<Row>` of the `DenseMatrix`.
+  `configure_wrap` resizes that `Vec`; when it grows beyond its capacity the allocator may return a
+  different block and free the old one.  Nothing ties the lifetime of the block to the exported view. -/
+
+/-- `asIs`: `calculate` / `Scanner` reconfigure the sequence regardless of exported views (pinned
+    commit).  `repaired`: a reconfiguration that has to grow the storage is refused with `BufferError`
+    while a view is exported (what `bytearray` does). -/
+inductive Variant where
+  | asIs
+  | repaired
+deriving Repr, DecidableEq
+
+/-- the Python object together with the identity of its storage block -/
+structure PyObj where
+  seq : PySeq
+  block : Nat        -- identity of the allocation holding the rows
+  exports : Nat      -- live exported views
+deriving Repr, DecidableEq
+
+/-- an exported view remembers the block it points into -/
+structure Exported where
+  view : View2
+  block : Nat
+deriving Repr, DecidableEq
+
+def PyObj.fresh (cols R : Nat) : PyObj := { seq := PySeq.fresh cols R, block := 0, exports := 0 }
+
+def PyObj.export (o : PyObj) (align : Nat) : PyObj × Exported :=
+  ({ o with exports := o.exports + 1 }, { view := o.seq.view align, block := o.block })
+
+/-- does `configure` for a motif of `M` rows grow the row storage? -/
+def PySeq.grows (s : PySeq) (M : Nat) : Bool := decide ((s.configure M).dataRows > s.dataRows)
+
+/-- `calculate` with a motif of `M` rows; `moves` = the allocator's choice when the storage grows -/
+def PyObj.calculate (v : Variant) (moves : Bool) (o : PyObj) (M : Nat) : Except String PyObj :=
+  if o.seq.grows M then
+    match v with
+    | .repaired =>
+      if o.exports > 0 then .error "BufferError"
+      else .ok { o with seq := o.seq.configure M, block := if moves then o.block + 1 else o.block }
+    | .asIs => .ok { o with seq := o.seq.configure M, block := if moves then o.block + 1 else o.block }
+  else .ok { o with seq := o.seq.configure M }
+
+/-- the exported view still points into the storage of the object -/
+def Exported.valid (e : Exported) (o : PyObj) : Prop := e.block = o.block
+
+instance (e : Exported) (o : PyObj) : Decidable (e.valid o) := by unfold Exported.valid; infer_instance
+
+/-- observations of "export a view, calculate with `M` rows, read the old view" that a variant admits:
+    `same` (the view still shows the sequence), `differs` (it shows other memory), `BufferError` -/
+def staleAdmissible (v : Variant) (s : PySeq) (M : Nat) : List String :=
+  if s.grows M then
+    match v with
+    | .asIs => ["same", "differs"]
+    | .repaired => ["BufferError"]
+  else ["same"]
+
 end PyView
 end LMV
